@@ -42,6 +42,26 @@ def oracleName (impl : String) (specAccept : Option Bool) : String :=
       else if specAccept == some false then "fail:C16:accepted-input-violating-limits"
       else "ok"
 
+/-- split a byte string at every `.` (46) -/
+def splitDots (s : List UInt8) : List (List UInt8) :=
+  let (cur, acc) := s.foldl (fun (p : List UInt8 × List (List UInt8)) b =>
+    if b.toNat == 46 then ([], p.2 ++ [p.1]) else (p.1 ++ [b], p.2)) ([], [])
+  acc ++ [cur]
+
+/-- C16, independent reading of the text form: `.` and the empty string are the root; otherwise the
+    text ends in exactly one final dot, every label before it is non-empty and at most 63 octets,
+    and the wire length (one length octet per label, plus the root) is at most 255. -/
+def specDottedOk (s : List UInt8) : Bool :=
+  if s == [46] || s.isEmpty then true
+  else
+    match s.getLast? with
+    | some d =>
+      if d.toNat != 46 then false
+      else
+        let chunks := splitDots s.dropLast
+        chunks.all (fun c => !c.isEmpty && c.length ≤ 63) && (chunks.map (·.length + 1)).sum + 1 ≤ 255
+    | none => true
+
 def be16? (buf : List UInt8) : Option Nat :=
   match buf with
   | a :: b :: _ => some (a.toNat * 256 + b.toNat)
@@ -166,7 +186,7 @@ def dispatch (fields : List String) : Result :=
   | ["name.fromDotted", hex, impl] =>
     match bytesOfHex hex with
     | none => bad "hex"
-    | some s => { model := showOptName (Name.fromDotted s), oracle := oracleName impl none }
+    | some s => { model := showOptName (Name.fromDotted s), oracle := oracleName impl (some (specDottedOk s)) }
   | ["name.fromRelative", origin, hex, impl] =>
     match parseName origin, bytesOfHex hex with
     | some o, some s => { model := showOptName (Name.fromRelativeDotted o s), oracle := oracleName impl none }
@@ -182,9 +202,15 @@ def dispatch (fields : List String) : Result :=
       { model := showOptName (Name.makeSubdomainOf n o), oracle := oracleName impl (some (total ≤ 255)),
         tags := if total ≥ 250 then "near-limit" else "small" }
     | _, _ => bad "args"
-  | ["name.isSub", n, o, _] =>
+  | ["name.isSub", n, o, impl] =>
     match parseName n, parseName o with
-    | some n, some o => { model := b2s (Name.isSubdomainOf n o) }
+    | some n, some o =>
+      -- independent reading: the labels of `o` are a suffix of the labels of `n`
+      let k := n.labels.length - o.labels.length
+      let spec := o.labels.length ≤ n.labels.length && n.labels.drop k == o.labels
+      { model := b2s (Name.isSubdomainOf n o),
+        oracle := if impl == b2s spec then "ok" else "fail:C16:subdomain-relation-differs-from-label-suffix",
+        tags := if spec then "sub" else if o.labels.length > n.labels.length then "shorter" else "other" }
     | _, _ => bad "args"
   | ["name.cmp", a, b, _] =>
     match parseName a, parseName b with
@@ -231,6 +257,12 @@ def dispatch (fields : List String) : Result :=
         | some ms => if ms > 65000 then "fail:C08:over-60s-budget-cpu-bound-search" else "ok"
         | none => "fail:C08:unparsable"
     { model := impl, oracle := v, tags := s!"real/{fam}/" ++ ((parts.headD "").splitOn " ").headD "" ++ (if (elapsed.getD 0) ≥ 59000 then "/at-budget" else "/early") }
+  | ["server.deep", depth, impl] =>
+    -- the release build of the server and a well-formed message with `depth` nested compression pointers
+    { model := impl, oracle := if impl.startsWith "replied" then "ok"
+                               else if impl == "server-died" then "fail:C03:server-worker-stack-exhausted-by-pointer-chain"
+                               else "fail:C03:no-reply-to-wellformed-deep-message",
+      tags := s!"deep/{depth}" }
   | ["server.reload-live", variant, impl] =>
     -- reloads while the real binary is busy (judged by the harness from the answers it collected)
     let v := (impl.splitOn " ").headD "?"
@@ -256,6 +288,7 @@ def dispatch (fields : List String) : Result :=
   | ["config.load", es, orders, qs, impl] => cmdConfigLoad es orders qs impl
   | ["ztext.parse", hex, impl] => cmdZtextParse hex impl
   | ["ztext.roundtrip", hex, impl] => cmdZtextRoundtrip hex impl
+  | ["ztext.glued", o, g, impl] => cmdZtextGlued o g impl
   | ["ztext.api", z, impl] => cmdZtextApi z impl
   | ["ztext.serialise", z, impl] => cmdZtextSerialise z impl
   | ["ztext.rendered", ds, v, hex, impl] => cmdZtextRendered ds v hex impl
